@@ -103,6 +103,8 @@ def main():
             return pt.Seq(mv, pt.If(mv.hasValue(), mv.value(), pt.Int(0)))
         if k == "typeerr":
             return pt.Add(pt.Int(1), pt.Bytes("a"))
+        if k == "v7":      # an op that exists from program version 7 on (replace2)
+            return pt.Btoi(pt.Replace(pt.Itob(E(e[1], env)), pt.Int(0), pt.Bytes("base16", "0x01")))
         raise AssertionError("expr " + repr(e))
 
     def B(e, env):
